@@ -17,7 +17,8 @@
 (* The critical sections of the map's own lock never block: one step each.     *)
 (* Revalidate = TRUE models the repair "after acquiring, check under the map   *)
 (* read lock that the key still maps to the object in hand, else release it    *)
-(* and start over"; FALSE is the code as it is.                                *)
+(* and start over"; FALSE is the code as it is.  SafeDelR = TRUE models the    *)
+(* companion repair of DeleteRUnlock (delete only when TryLock succeeds).      *)
 EXTENDS LockContract
 
 CONSTANTS NG, Keys, Rounds,
@@ -25,7 +26,8 @@ CONSTANTS NG, Keys, Rounds,
           WRels,       \* how writers release: subset of {"unlock", "deleteunlock"}
           RRels,       \* how readers release: subset of {"runlock", "deleterunlock"}
           PlainDelete, \* TRUE: a Delete(key) may be issued at any time by a bystander
-          Revalidate
+          Revalidate,
+          SafeDelR     \* TRUE models the repair of DeleteRUnlock: remove the entry only if TryLock succeeds (nobody else uses the mutex)
 G == 1..NG
 Objs == 1..(NG * Rounds)
 
@@ -87,7 +89,8 @@ Rel(g) == /\ pc[g] = "unl"
                 ELSE /\ IF o = 0 THEN UNCHANGED <<w, r>>
                         ELSE IF wr THEN w' = [w EXCEPT ![o] = FALSE] /\ UNCHANGED r
                         ELSE r' = [r EXCEPT ![o] = @ - 1] /\ UNCHANGED w
-                     /\ items' = IF rel[g] \in {"deleteunlock", "deleterunlock"} THEN [items EXCEPT ![k] = 0] ELSE items
+                     /\ items' = IF rel[g] = "deleteunlock" \/ (rel[g] = "deleterunlock" /\ (~SafeDelR \/ o = 0 \/ (r[o] = 1 /\ ~w[o])))
+                                 THEN [items EXCEPT ![k] = 0] ELSE items
                      /\ pc' = [pc EXCEPT ![g] = "idle"] /\ left' = [left EXCEPT ![g] = @ - 1]
                      /\ c' = CNext(c, Ev("rel_ret", g)) /\ UNCHANGED crashed
           /\ UNCHANGED <<nextObj, key, mode, rel, my>>
